@@ -116,6 +116,7 @@ class Ctx:
         self.caps: list[str] = []
         self.extra: collections.Counter = collections.Counter()
         self.max_depth = 0
+        self.root = None  # the shard being explored (set by the runner); stored with every violation
 
     # --- counting -------------------------------------------------------------------------------
     def state(self, canon, nontrivial: bool = False) -> bool:
@@ -168,6 +169,7 @@ class Ctx:
                 observed=jsonable(observed),
                 expected=jsonable(expected),
                 count=1,
+                root=jsonable(self.root),
             )
         else:
             rec["count"] += 1
@@ -283,6 +285,7 @@ def _init_worker(mod_name: str, tier: str):
 def _run_root(args):
     idx, root = args
     ctx = Ctx(_MOD.ID)
+    ctx.root = root
     err = None
     try:
         _MOD.explore(root, _TIER, ctx)
@@ -357,8 +360,27 @@ def finish(mod, tier, seed, merged: Merged, wall: float, n_roots: int) -> int:
             hit = [x for x in c.violations.values() if x["clause"] == v["clause"] and x["site"] == v["site"]]
             repro.append(("hit", json.dumps(hit[0]["observed"], sort_keys=True)) if hit else ("miss", None))
         if repro[0] != repro[1] or repro[0][0] != "hit":
-            print(f"HARNESS-NONDETERMINISM property={pid} clause={v['clause']} replays={repro}", file=sys.stderr)
+            # The case does not fail on its own. Re-run the whole shard it was found in: if it fails again there, the failure
+            # depends on what ran before it in the same process (state leaking between calls) -- still a violation, and the
+            # replay file then re-runs the shard; if not, the harness itself is nondeterministic (hard error).
+            again = False
+            if v.get("root") is not None:
+                c = Ctx(pid)
+                c.root = unjson(v["root"])
+                try:
+                    mod.explore(unjson(v["root"]), tier, c)
+                except BaseException:
+                    pass
+                again = any(x["clause"] == v["clause"] and x["site"] == v["site"] for x in c.violations.values())
             v["replay_check"] = jsonable(repro)
+            if again:
+                v["needs_shard_history"] = True
+                v["tier"] = tier
+                print(f"NOTE property={pid} clause={v['clause']}: the recorded case passes on its own but fails again when its whole shard is re-run: "
+                      f"the result depends on earlier calls in the same process (replay re-runs the shard)", file=sys.stderr)
+            else:
+                print(f"HARNESS-NONDETERMINISM property={pid} clause={v['clause']} replays={repro}", file=sys.stderr)
+                rc = max(rc, 2)
         path = write_replay(pid, v)
         replay_paths.append(path)
         print(f"VIOLATION property={pid} replay={path} clause={v['clause']} site={json.dumps(v['site'], sort_keys=True)} count={v['count']}")
@@ -437,7 +459,13 @@ def run_replay(mod, path: str) -> int:
     with open(path) as f:
         v = json.load(f)
     ctx = Ctx(mod.ID)
-    mod.replay(unjson(v["case"]), ctx)
+    if v.get("needs_shard_history") and v.get("root") is not None:
+        print(f"[{mod.ID}] this case only fails after the cases explored before it: re-running its shard {json.dumps(v['root'])}")
+        ctx.root = unjson(v["root"])
+        mod.explore(unjson(v["root"]), v.get("tier", "quick"), ctx)
+        ctx.violations = {k: x for k, x in ctx.violations.items() if x["clause"] == v["clause"] and x["site"] == v["site"]}
+    else:
+        mod.replay(unjson(v["case"]), ctx)
     known = load_known()
     rc = 0
     for x in ctx.violations.values():
